@@ -233,10 +233,10 @@ func (t *tupleEval) isCopyLoop(s ast.Stmt, dst types.Object, pi int) bool {
 // ---------------------------------------------------------------------
 
 type tfunc struct {
-	fd   *ast.FuncDecl
-	recv *types.Var
-	elem string
-	role string
+	fd       *ast.FuncDecl
+	recv     *types.Var
+	elem     string
+	role     string
 	recvType string
 }
 
@@ -1432,16 +1432,25 @@ func testifyConstructor(c *Ctx, p *TPath, ii int, funcs []tfunc, fail func(rule,
 			testOK = true
 		case sel.Sel.Name == "Cleanup" && root != nil && p.Info.Uses[root] == tObj && len(call.Args) == 1:
 			if fl, ok := call.Args[0].(*ast.FuncLit); ok {
-				ast.Inspect(fl.Body, func(x ast.Node) bool {
-					if ic, ok := x.(*ast.CallExpr); ok {
+				// unconditionally: a statement of the function literal itself, not under a branch or loop, and
+				// nothing before it can leave the function (round 6: "if !t.Failed() { AssertExpectations }")
+				for _, st := range fl.Body.List {
+					es, isExpr := st.(*ast.ExprStmt)
+					if !isExpr {
+						switch st.(type) {
+						case *ast.AssignStmt, *ast.DeclStmt:
+							continue
+						}
+						break // a branch, loop or return before the assertion: not unconditional
+					}
+					if ic, ok := es.X.(*ast.CallExpr); ok {
 						if is, ok := ic.Fun.(*ast.SelectorExpr); ok && is.Sel.Name == "AssertExpectations" && isArgT(ic) {
 							if r, _ := selChain(is.X); r != nil && p.Info.Uses[r] == mObj {
 								cleanupOK = true
 							}
 						}
 					}
-					return true
-				})
+				}
 			}
 		}
 	}
@@ -1449,7 +1458,7 @@ func testifyConstructor(c *Ctx, p *TPath, ii int, funcs []tfunc, fail func(rule,
 	case !testOK:
 		fail("R03.9", "ctor-test", name+" does not register the testing value on the mock it returns (Mock.Test(t)): unexpected calls would panic instead of failing the test", ctor.fd.Pos())
 	case !cleanupOK:
-		fail("R03.9", "ctor-cleanup", name+" does not register t.Cleanup(func(){ <mock>.AssertExpectations(t) }) for the mock it returns", ctor.fd.Pos())
+		fail("R03.9", "ctor-cleanup", name+" does not register t.Cleanup(func(){ <mock>.AssertExpectations(t) }) with an unconditional assertion for the mock it returns", ctor.fd.Pos())
 	default:
 		c.OK("R03.9", "testify|constructor", "", name)
 	}
